@@ -459,10 +459,11 @@ type RpResult struct {
 }
 
 type rpClient struct {
-	conn   net.Conn
-	mu     sync.Mutex
-	frames [][]byte
-	closed bool
+	conn    net.Conn
+	mu      sync.Mutex
+	frames  [][]byte
+	closed  bool
+	nframes int64 // len(frames), readable without the lock (the server's read callbacks sample it)
 }
 
 func (c *rpClient) readLoop() {
@@ -487,6 +488,7 @@ func (c *rpClient) readLoop() {
 				acc = acc[i+j+2:]
 				c.mu.Lock()
 				c.frames = append(c.frames, fr)
+				atomic.StoreInt64(&c.nframes, int64(len(c.frames)))
 				c.mu.Unlock()
 			}
 		}
@@ -539,11 +541,7 @@ func (s *RpSrv) RpPlay(items []RpItem, flush int) *RpResult {
 	s.dial.Unlock()
 	cl := &rpClient{conn: conn}
 	rec.mu.Lock()
-	rec.frames = func() int {
-		cl.mu.Lock()
-		defer cl.mu.Unlock()
-		return len(cl.frames)
-	}
+	rec.frames = func() int { return int(atomic.LoadInt64(&cl.nframes)) }
 	rec.mu.Unlock()
 	go cl.readLoop()
 	const wait = 8 * time.Second
@@ -566,10 +564,11 @@ func (s *RpSrv) RpPlay(items []RpItem, flush int) *RpResult {
 		}
 		pend, npend = pend[:0], 0
 	}
+	haveFrom := 0 // frames before this index were received before the current barrier frame was sent
 	have := func(pred func(f RpFrame) bool) bool {
 		cl.mu.Lock()
 		defer cl.mu.Unlock()
-		for _, w := range cl.frames {
+		for _, w := range cl.frames[haveFrom:] {
 			if f, ok := RpDecode(w); ok && pred(f) {
 				return true
 			}
@@ -639,6 +638,9 @@ func (s *RpSrv) RpPlay(items []RpItem, flush int) *RpResult {
 			}
 			s.G.SendActiveMessage(service.NewActiveMessage(key, consts.JT808CommandType(it.Cmd), it.Body, 2*time.Millisecond))
 		}
+		if len(it.Deliv) > 0 && it.Deliv[len(it.Deliv)-1].Barrier {
+			haveFrom = int(atomic.LoadInt64(&cl.nframes))
+		}
 		for i, w := range it.Send {
 			pend = append(pend, w...)
 			npend++
@@ -647,6 +649,8 @@ func (s *RpSrv) RpPlay(items []RpItem, flush int) *RpResult {
 				flushNow()
 			}
 			if d.Barrier {
+				// the reply to the barrier frame arrives after everything received so far, except the frames of this
+				// same flush that were answered in between: look at the frames received since this item began
 				ok := rpWait(wait, func() bool {
 					if !have(func(f RpFrame) bool { return bytes.Equal(f.BCD, d.F.BCD) }) {
 						return false
